@@ -592,7 +592,7 @@ def evalSelect : Nat → Env → Select → List OrderItem → M (List String ×
         pure (acc.1 ++ cs.map (·.2), acc.2 ++ cs.map (fun (a, c) => Expr.col a c))) (([] : List String), ([] : List Expr))
     let aggregated := !groupBy.isEmpty || Expr.anyHasAgg outExprs ||
       (match having with | some h => h.hasAgg | none => false) ||
-      order.any (fun (.mk e _ _) => e.hasAgg)
+      order.any (fun o => o.exprOf.hasAgg)
     -- rows to project: (locals, group)
     let units : List (List Scope × Option (List (List Scope))) ←
       if aggregated then do
@@ -625,7 +625,7 @@ def evalSelect : Nat → Env → Select → List OrderItem → M (List String ×
           let v ← evalExpr cb te { env with locals := L, group := g } h
           pure ((← liftR v.truth) == some true))
     -- window functions
-    let winSpecs := Expr.winsList outExprs ++ Expr.winsList (order.map (fun (.mk e _ _) => e))
+    let winSpecs := Expr.winsList outExprs ++ Expr.winsList (order.map OrderItem.exprOf)
     let indexed := (List.range units.length).zip units
     -- per win id: (row index, value)
     let winVals ← winSpecs.foldlM (fun (winVals : List (Nat × List (Nat × Value))) ws =>
